@@ -1,5 +1,6 @@
 import O4.Lemmas.ReplayFilter
 import O4.Generated.Consts.Replayfilter
+import O4.Generated.Facts.Replayfilter
 /-!
 # C11 — the replay filter behaves as a bounded, expiring set for every history
 
@@ -252,6 +253,18 @@ theorem tas_atomic (f : Filter) (now : Int) (d : Nat) (k : Nat)
     split
     · assumption
     · simp
+
+/-- **structural fact, regenerated from the Go source on every run (go/ast)**: `TestAndSet`
+    takes the filter's mutex with `Lock(); defer Unlock()` (no other `Unlock`), touches only the
+    immutable SipHash key before that, and everything `compactFilter`/`reset` touch is covered by
+    it.  Together with `tas_atomic` (the sequential behaviour) this is what linearizability of
+    concurrent submissions rests on; goroutine scheduling itself is outside the theorem. -/
+theorem tas_runs_under_mutex :
+    Facts.Replayfilter.ReplayFilter_TestAndSet_locked = true ∧
+    Facts.Replayfilter.ReplayFilter_TestAndSet_prelock ⊆ ["key"] ∧
+    Facts.Replayfilter.ReplayFilter_compactFilter_fields ⊆ Facts.Replayfilter.ReplayFilter_TestAndSet_fields ∧
+    Facts.Replayfilter.ReplayFilter_reset_fields ⊆ Facts.Replayfilter.ReplayFilter_TestAndSet_fields := by
+  decide
 
 /-! Non-vacuity: concrete states meeting the hypotheses. -/
 example : ((Filter.new 10 3).run [(0, 1), (5, 1), (10, 1), (19, 1), (20, 1)]).2
